@@ -23,14 +23,17 @@ the model text).  For EVERY configuration record, fuel, recursion limit and toke
   `SET TIME ZONE`, the condition and message of `ASSERT` are printable expressions; the variable of
   `SET TIME ZONE v` was written with keyword tokens; the variable of `SET … NAMES` /
   `SET … CHARACTERISTICS AS TRANSACTION` (no keywords: found by comparing the text up to ASCII case) was
-  written `NAMES` / `CHARACTERISTICS` in upper case; the charset and the collation of `SET NAMES` are
-  unquoted words; statements of the first two fragments as in `Props/C05Ddl.lean`.
+  written `NAMES` / `CHARACTERISTICS` in upper case; the charset and the collation of `SET NAMES` are each
+  an unquoted plain word (`plainName`: ASCII letter or `_`, then ASCII letters, digits, `_`, no keyword) or a
+  '…' / "…" string whose text is NOT such a word; statements of the first two fragments as in `Props/C05Ddl.lean`.
 
 What the real printer changes inside the fragment, as kernel-checked witnesses (same answers from the
 real parser in stream `tcl`).  CONTENT changes (the excluded shapes): `set_names_uppercased`
 (`set names x` comes back as `SET NAMES x`: the identifier `names` is now `NAMES`),
-`set_names_string_unquoted` (`SET NAMES 'utf8'` prints `SET NAMES utf8`: a string comes back as an
-identifier; `SET NAMES 'a b'` prints `SET NAMES a b`), `characteristics_uppercased`.  Keywords only:
+`set_names_string_unquoted` (`SET NAMES 'utf8'` prints `SET NAMES utf8`: a string whose text is a plain word
+comes back as an identifier; `SET NAMES 'a b'` prints itself, the string stays a string),
+`set_names_word_quoted` (a quoted word that is no plain word, `SET NAMES "x y"`, comes back as the string `'x y'`; a
+quoted plain word loses its quotes), `characteristics_uppercased`.  Keywords only:
 `set_time_zone_eq_renamed`, `set_session_dropped`, `noise_words_dropped`, `discard_temporary_renamed`.
 -/
 namespace SqlVerif.Props.C05Tcl
@@ -130,12 +133,17 @@ example :
      | _ => (false, false, 0, false)) = (true, true, 3, true) := by decide +kernel
 
 /-- non-vacuity of the `SET NAMES` side conditions: `SET NAMES utf8mb4 COLLATE utf8mb4_bin` (MySQL) is printable and
-prints itself; so are `SET NAMES DEFAULT` and `SET SESSION CHARACTERISTICS AS TRANSACTION READ ONLY` -/
+prints itself, so does `SET NAMES 'a b' COLLATE "c d"` up to the kind of quotes; so are `SET NAMES DEFAULT` and `SET SESSION CHARACTERISTICS AS TRANSACTION READ ONLY` -/
 example :
     (match Tcl.parseStmt my 300 50 [kw "SET", wd "NAMES", wd "utf8mb4", kw "COLLATE", wd "utf8mb4_bin"] with
      | .ok (s, []) => (s.printable, s.showToks.filterMap contentOf == s.flatten.filterMap contentOf,
         (s.flatten.filterMap contentOf).length,
         s.showText == some (str "SET NAMES utf8mb4 COLLATE utf8mb4_bin"))
+     | _ => (false, false, 0, false)) = (true, true, 3, true) ∧
+    (match Tcl.parseStmt my 300 50 [kw "SET", wd "NAMES", .sqs (str "a b"), kw "COLLATE", .dqs (str "c d")] with
+     | .ok (s, []) => (s.printable, s.showToks.filterMap contentOf == s.flatten.filterMap contentOf,
+        (s.flatten.filterMap contentOf).length,
+        s.showText == some (str "SET NAMES 'a b' COLLATE 'c d'"))
      | _ => (false, false, 0, false)) = (true, true, 3, true) ∧
     contentIO my [kw "SET", wd "NAMES", kw "DEFAULT"] =
       some (true, [.ident (str "NAMES") none], [.ident (str "NAMES") none]) ∧
@@ -155,17 +163,36 @@ theorem set_names_uppercased :
       some (false, [.ident (str "names") none, .ident (str "x") none], [.ident (str "NAMES") none, .ident (str "x") none]) ∧
     printsAs g [kw "SET", wd "names", wd "x"] "SET NAMES x" = true := by decide +kernel
 
-/-- **content changed** (excluded shape): `Display for Statement::SetNames` writes the charset with
-`f.write_str`, without quotes: `SET NAMES 'utf8'` prints `SET NAMES utf8` (the string comes back as an
-identifier), and `SET NAMES 'a b'` prints `SET NAMES a b` (which the parser rejects) -/
+/-- **content changed** (excluded shape): `Display for Statement::SetNames` writes a charset / collation name that
+is one plain non-keyword word without quotes, whatever the source had: `SET NAMES 'utf8'` prints `SET NAMES utf8` (the
+string comes back as an identifier).  A name that is no plain word is written as a '…' string: `SET NAMES 'a b'` prints
+itself and `SET NAMES "a b"` (MySQL: a "…" string) prints `SET NAMES 'a b'` — the string stays a string, these shapes are
+`printable` -/
 theorem set_names_string_unquoted :
     contentIO my [kw "SET", wd "NAMES", .sqs (str "utf8")] =
       some (false, [.ident (str "NAMES") none, .str (str "utf8")], [.ident (str "NAMES") none, .ident (str "utf8") none]) ∧
     printsAs my [kw "SET", wd "NAMES", .sqs (str "utf8")] "SET NAMES utf8" = true ∧
     contentIO my [kw "SET", wd "NAMES", .sqs (str "a b")] =
-      some (false, [.ident (str "NAMES") none, .str (str "a b")], [.ident (str "NAMES") none, .ident (str "a b") none]) ∧
-    printsAs my [kw "SET", wd "NAMES", .sqs (str "a b")] "SET NAMES a b" = true ∧
-    (match Tcl.parseStmt my 300 50 [kw "SET", wd "NAMES", wd "a", wd "b"] with | .ok (_, []) => true | _ => false) = false := by
+      some (true, [.ident (str "NAMES") none, .str (str "a b")], [.ident (str "NAMES") none, .str (str "a b")]) ∧
+    printsAs my [kw "SET", wd "NAMES", .sqs (str "a b")] "SET NAMES 'a b'" = true ∧
+    contentIO my [kw "SET", wd "NAMES", .dqs (str "a b")] =
+      some (true, [.ident (str "NAMES") none, .str (str "a b")], [.ident (str "NAMES") none, .str (str "a b")]) ∧
+    printsAs my [kw "SET", wd "NAMES", .dqs (str "a b")] "SET NAMES 'a b'" = true ∧
+    contentIO my [kw "SET", wd "NAMES", .sqs (str "select")] =
+      some (true, [.ident (str "NAMES") none, .str (str "select")], [.ident (str "NAMES") none, .str (str "select")]) ∧
+    printsAs my [kw "SET", wd "NAMES", .sqs (str "select")] "SET NAMES 'select'" = true := by
+  decide +kernel
+
+/-- **content changed** (excluded shape), the other direction: a QUOTED WORD that is no plain word comes back as a
+string — `SET NAMES "x y"` (Generic: `"x y"` is a delimited identifier) prints `SET NAMES 'x y'`; a quoted plain word
+loses its quotes — SET NAMES `utf8` prints `SET NAMES utf8` -/
+theorem set_names_word_quoted :
+    contentIO g [kw "SET", wd "NAMES", .word (str "x y") (some 34) none] =
+      some (false, [.ident (str "NAMES") none, .ident (str "x y") (some 34)], [.ident (str "NAMES") none, .str (str "x y")]) ∧
+    printsAs g [kw "SET", wd "NAMES", .word (str "x y") (some 34) none] "SET NAMES 'x y'" = true ∧
+    contentIO g [kw "SET", wd "NAMES", .word (str "utf8") (some 96) none] =
+      some (false, [.ident (str "NAMES") none, .ident (str "utf8") (some 96)], [.ident (str "NAMES") none, .ident (str "utf8") none]) ∧
+    printsAs g [kw "SET", wd "NAMES", .word (str "utf8") (some 96) none] "SET NAMES utf8" = true := by
   decide +kernel
 
 /-- **keywords rewritten, content kept**: `SET TIME ZONE = 'x'` is a plain assignment to the variable `TIMEZONE`
